@@ -167,6 +167,19 @@ def run(ctx) -> None:
         ctx.check("R1", ov is not None and all(unparse(ov) == unparse(call_arg(c, gate, "old_version")) for c in gcalls),
                   f"{root}: incr_dispatch and the gate use the same old version `{unparse(ov) if ov is not None else None}`",
                   f"{root}: the increment starts from a different version than the gate compares with", unparse(inc[0])[:80], loc=fn.loc(inc[0]))
+        # --set-version: the value that goes to the gate is the given version exactly when one was given, the increment otherwise
+        from sa.pathcond import assign_facts
+        sv_atom = "set_version is None"
+        pc_sv = PathCond(cfg, extra_atoms=[sv_atom], only=lambda t_: t_ == sv_atom, max_atoms=2)
+        gated = a_new.id if isinstance(a_new, ast.Name) else "new_version"
+        facts = [(v_, c_.project([sv_atom])) for _t, v_, c_, _s in assign_facts(cfg, pc_sv, [gated])]
+        given = [c_ for v_, c_ in facts if isinstance(v_, ast.Name) and v_.id == "set_version"]
+        incd = [c_ for v_, c_ in facts if isinstance(v_, ast.Call) and unparse(v_.func) == "incr_dispatch"]
+        ok_sv = len(given) == 1 and len(incd) == 1 and given[0].equiv(~BF.var(sv_atom)) and incd[0].equiv(BF.var(sv_atom))
+        ctx.check("R1", ok_sv, f"{root}: `{gated}` is --set-version exactly when it was given, the increment otherwise",
+                  f"{root}: --set-version is not the version that is validated and announced",
+                  f"`{gated} = set_version` when {[c_.to_dnf() for c_ in given]}, `{gated} = incr_dispatch(...)` when {[c_.to_dnf() for c_ in incd]}: a given version (also an invalid or "
+                  f"smaller one, which must end in a non-zero exit) is ignored", loc=fn.loc(), witness={"command": "bumpver test 2020.1001 YYYY.BUILD --set-version 2019.1"})
         if root == "cli.update":
             od = shapes.single_def(fn, "old_version")
             ctx.check("R1", od is not None and unparse(od) == "cfg.current_version", "update: old_version = cfg.current_version (single definition)",
